@@ -166,7 +166,7 @@ def main(tier, seed, replay=None):
         facs = [("SolverComposite", lambda: claripy.SolverComposite())]
         ops = ["add", "add", "add", "add", "satisfiable", "eval", "eval", "batch_eval", "min", "max", "min", "max", "solution",
                "is_true", "simplify", "downsize", "branch", "eval_bool", "split", "combine", "merge"]
-        n = 120 if tier == "quick" else 5000
+        n = 300 if tier == "quick" else 5000
         fail = solverhist.run_histories(claripy, drv, rng, facs, n, 18, report=rep, tag="c12", ops=ops, max_solvers=5,
                                         invariant=composite_invariant)
         stats["histories"] += n
@@ -175,7 +175,7 @@ def main(tier, seed, replay=None):
         if not fail:
             fail = stale_merged_cache(claripy, drv, stats)
         if not fail:
-            n2 = 40 if tier == "quick" else 1500
+            n2 = 80 if tier == "quick" else 1500
             fail = solverhist.cache_scenarios(claripy, drv, rng, facs, n2, report=rep, tag="c12cs")
             stats["cache_scenarios"] += n2
     rep.cov["rule"] = ("18-step histories on trees of up to 5 SolverComposite objects: add (29 constraint forms over x,y:BV4 z:BV3 b:Bool that "
